@@ -1,28 +1,48 @@
 //! C13: drive the REAL pest::pratt_parser::{PrattParser, ConstPrattParser, pratt_precedence!} and
-//! pest::prec_climber::PrecClimber on operator tables x token sequences, with pairs built through
-//! pest::iterators::PairsBuilder (R = u8, one byte per token), and print the tree each one builds
-//! as an in-order S-expression whose atoms are `<rule letter><token index>`.
+//! pest::prec_climber::{PrecClimber::new, PrecClimber::new_const, prec_climber!} on operator tables x token
+//! sequences, with pairs built through pest::iterators::PairsBuilder (one byte of input per token), and print
+//! the tree each one builds as an in-order S-expression.
 //!
-//! case  `T;<maps>;<decl>;<tokens>`   maps  = three 0/1 flags: map_prefix, map_postfix, map_infix supplied
+//! case  `T;<maps>;<decl>;<tokens>`   rules are ASCII letters (R = u16 holding the letter's code)
+//!                                    maps  = three 0/1 flags: map_prefix, map_postfix, map_infix supplied
 //!                                    decl  = levels joined by ',', a level = ops `<letter><kind>`, kind p|q|l|r
 //!                                            (prefix, postfix, infix left, infix right); later level binds tighter
 //!                                    tokens= rule letters; a letter that is not in the table is a primary
-//!   obs `P=<r>;C=<r>;N=<r>;K=<r>`    P PrattParser::new().op(..)..; C ConstPrattParser::new_const(pratt_precedence![..])
-//!                                    (31 fixed shapes: every split of <= 5 operators into levels, `-` otherwise);
-//!                                    N ConstPrattParser::new_const on a runtime array (<= 8 operators);
-//!                                    K PrecClimber::new on the infix operators of the declaration (`-` if none)
+//!                                    atoms of the trees: `<letter><token index>`
+//! case  `W;<maps>;<decl>;<tokens>`   the same with numeric rules (any u16): a level = ops `<number><kind>` joined by
+//!                                    '.', tokens = numbers joined by '.', atoms `<number>@<token index>`.
+//!                                    Any number of levels (tables with 1..300 levels are generated).
+//!   obs `P=<r>;C=<r>;N=<r>;K=<r>;S=<r>;R=<r>;M=<r>`
+//!        P PrattParser::new().op(..)..
+//!        C ConstPrattParser::new_const(pratt_precedence![..]) - the shape of the invocation is syntactic: every split of
+//!          <= 5 operators into levels, one operator per level for 6..=64, 100, 260 and 300 levels, two operators per
+//!          level for 3..=40 levels; `-` otherwise
+//!        N ConstPrattParser::new_const on a runtime array: exact length up to 40 operators, above that the next of
+//!          48, 64, 100, 130, 260, 300, 520 with the LAST entry repeated (same rule, same affix, same level: flag false)
+//!        K PrecClimber::new on the infix operators of the declaration (`-` if none); levels without an infix
+//!          operator are dropped
+//!        S PrecClimber::new_const on the slice PrecClimber::new would build (declaration order, level = index + 1)
+//!        R PrecClimber::new_const on that slice in REVERSE order ("Entries don't have to be ordered in any way")
+//!        M prec_climber![..] - syntactic, over the harness's `enum Rule`: every infix table with <= 3 operators and one
+//!          associativity per level with its operators listed in every order relative to the enum's order, and a few
+//!          tables with 26..46 levels; `-` otherwise (T cases only)
 //! case  `N;<maps>;<entries>;<tokens>` entries joined by ',': a chain of ops followed by + (new level) or - (same level)
 //!   obs `N=<r>`                       ConstPrattParser::new_const with arbitrary flags / chained operators
+//! case  `L;<entries>;<tokens>`        entries joined by ',': `<number><l|r><precedence>` in any order, any u32 precedence
+//!   obs `S=<r>`                       PrecClimber::new_const on exactly that slice; tokens numeric as in W
 //! <r> = S-expression | `!KIND` for a panic (KIND from the panic message).
+#![recursion_limit = "2048"]
 use pest::iterators::{Pair, Pairs, PairsBuilder};
 use pest::pratt_parser::{Assoc, ConstPrattParser, Op, PrattParser};
 use pest::pratt_precedence;
+use pest::prec_climber;
 use pest::prec_climber::{Assoc as CAssoc, Operator, PrecClimber};
+use pest::RuleType;
 use pvharness::*;
-use std::collections::HashSet;
+use std::collections::{HashMap, HashSet};
 use std::io::{self, BufWriter, Write};
 use std::sync::atomic::{AtomicBool, AtomicU64, Ordering};
-use std::sync::Mutex;
+use std::sync::{Mutex, OnceLock};
 
 // Watchdog: a mutated parser may loop forever inside one API call.  While a call into pest is in
 // flight IN_CALL is set; if the case counter does not move for 5 s the watchdog reports the case
@@ -54,13 +74,17 @@ fn start_watchdog() {
     });
 }
 
-type OpD = (u8, char);
+type R = u16;
+type OpD = (R, char);
+
+/// numeric atoms (W / L cases) or letter atoms (T / N cases)
+static WIDE: AtomicBool = AtomicBool::new(false);
 
 #[allow(non_snake_case)]
 mod K {
     use super::*;
     /// the two-segment constructor call that `pratt_precedence!` accepts
-    pub const fn o(x: OpD) -> Op<u8> {
+    pub const fn o(x: OpD) -> Op<R> {
         match x.1 {
             'p' => Op::prefix(x.0),
             'q' => Op::postfix(x.0),
@@ -70,7 +94,10 @@ mod K {
     }
 }
 
-fn atom(p: &Pair<u8>) -> String { format!("{}{}", p.as_rule() as char, p.as_span().start()) }
+fn atom(p: &Pair<R>) -> String {
+    if WIDE.load(Ordering::Relaxed) { format!("{}@{}", p.as_rule(), p.as_span().start()) }
+    else { format!("{}{}", p.as_rule() as u8 as char, p.as_span().start()) }
+}
 
 fn panic_kind(msg: &str) -> String {
     let k = if msg.starts_with("Pratt parsing expects non-empty Pairs") { "EMPTY" }
@@ -88,10 +115,16 @@ fn panic_kind(msg: &str) -> String {
     format!("!{}", k)
 }
 
-fn pairs_of<'i>(tokens: &'i str) -> Pairs<'i, u8> {
-    let mut b = PairsBuilder::new(tokens);
-    for (i, c) in tokens.bytes().enumerate() { b = b.rule(c, i, i + 1); }
+/// one byte of `input` per token; the rule of a token is independent of the byte under it
+fn pairs_of<'i, T: RuleType>(input: &'i str, toks: &[T]) -> Pairs<'i, T> {
+    let mut b = PairsBuilder::new(input);
+    for (i, c) in toks.iter().enumerate() { b = b.rule(*c, i, i + 1); }
     b.build()
+}
+
+/// the input text under the tokens (T: the token letters themselves, W: a run of 'x')
+fn input_of(toks: &[R]) -> String {
+    if WIDE.load(Ordering::Relaxed) { "x".repeat(toks.len()) } else { toks.iter().map(|c| *c as u8 as char).collect() }
 }
 
 /// works for PrattParser and ConstPrattParser alike (map_primary is an inherent method of each)
@@ -99,19 +132,20 @@ macro_rules! run_map {
     ($pratt:expr, $m:expr, $tokens:expr) => {{
         let pratt = &$pratt;
         let m: (bool, bool, bool) = $m;
-        let tokens: &str = $tokens;
+        let tokens: &[R] = $tokens;
+        let input = input_of(tokens);
         match catch(|| {
-            let mut pm = pratt.map_primary(|p: Pair<u8>| atom(&p));
-            if m.0 { pm = pm.map_prefix(|op: Pair<u8>, rhs: String| format!("({} {})", atom(&op), rhs)); }
-            if m.1 { pm = pm.map_postfix(|lhs: String, op: Pair<u8>| format!("({} {})", lhs, atom(&op))); }
-            if m.2 { pm = pm.map_infix(|lhs: String, op: Pair<u8>, rhs: String| format!("({} {} {})", lhs, atom(&op), rhs)); }
-            pm.parse(pairs_of(tokens))
+            let mut pm = pratt.map_primary(|p: Pair<R>| atom(&p));
+            if m.0 { pm = pm.map_prefix(|op: Pair<R>, rhs: String| format!("({} {})", atom(&op), rhs)); }
+            if m.1 { pm = pm.map_postfix(|lhs: String, op: Pair<R>| format!("({} {})", lhs, atom(&op))); }
+            if m.2 { pm = pm.map_infix(|lhs: String, op: Pair<R>, rhs: String| format!("({} {} {})", lhs, atom(&op), rhs)); }
+            pm.parse(pairs_of(&input, tokens))
         }) { Ok(s) => s, Err(e) => panic_kind(&e) }
     }};
 }
 
-fn run_builder(decl: &[Vec<OpD>], m: (bool, bool, bool), tokens: &str) -> String {
-    let mut pratt: PrattParser<u8> = PrattParser::new();
+fn run_builder(decl: &[Vec<OpD>], m: (bool, bool, bool), tokens: &[R]) -> String {
+    let mut pratt: PrattParser<R> = PrattParser::new();
     for lv in decl {
         let mut it = lv.iter();
         let mut op = K::o(*it.next().unwrap());
@@ -121,11 +155,42 @@ fn run_builder(decl: &[Vec<OpD>], m: (bool, bool, bool), tokens: &str) -> String
     run_map!(pratt, m, tokens)
 }
 
+/// `pratt_precedence![K::o(v[0]), K::o(v[1]), ..]` with one operator per level, for the prefix lengths marked with `!`
+macro_rules! pp_singles {
+    ($n:expr, $v:ident, $wc:ident; [$($d:tt)*]) => { None };
+    ($n:expr, $v:ident, $wc:ident; [$($d:tt)*] ! $($rest:tt)*) => {
+        if $n == [$(stringify!($d)),*].len() { Some($wc!(ConstPrattParser::new_const(pratt_precedence![$(K::o($v[$d])),*]))) }
+        else { pp_singles!($n, $v, $wc; [$($d)*] $($rest)*) }
+    };
+    ($n:expr, $v:ident, $wc:ident; [$($d:tt)*] $next:tt $($rest:tt)*) => { pp_singles!($n, $v, $wc; [$($d)* $next] $($rest)*) };
+}
+/// `pratt_precedence![K::o(v[0]) | K::o(v[1]), K::o(v[2]) | K::o(v[3]), ..]` with two operators per level
+macro_rules! pp_doubles {
+    ($n:expr, $v:ident, $wc:ident; [$($d:tt)*]) => { None };
+    ($n:expr, $v:ident, $wc:ident; [$(($a:tt $b:tt))*] ! $($rest:tt)*) => {
+        if $n == [$(stringify!($a)),*].len() { Some($wc!(ConstPrattParser::new_const(pratt_precedence![$(K::o($v[$a]) | K::o($v[$b])),*]))) }
+        else { pp_doubles!($n, $v, $wc; [$(($a $b))*] $($rest)*) }
+    };
+    ($n:expr, $v:ident, $wc:ident; [$($d:tt)*] $next:tt $($rest:tt)*) => { pp_doubles!($n, $v, $wc; [$($d)* $next] $($rest)*) };
+}
+
 /// ConstPrattParser through pratt_precedence! - the shape of the invocation is syntactic, so a fixed family.
-fn run_const_macro(decl: &[Vec<OpD>], m: (bool, bool, bool), tokens: &str) -> String {
+fn run_const_macro(decl: &[Vec<OpD>], m: (bool, bool, bool), tokens: &[R]) -> String {
     let shape: Vec<usize> = decl.iter().map(|l| l.len()).collect();
     let v: Vec<OpD> = decl.iter().flatten().copied().collect();
     macro_rules! with_const { ($e:expr) => {{ let c = $e; run_map!(c, m, tokens) }}; }
+    if v.len() > 5 {
+        let nl = shape.len();
+        if shape.iter().all(|k| *k == 1) {
+            let r: Option<String> = pp_singles!(nl, v, with_const; [] 0 1 2 3 4 5 ! 6 ! 7 ! 8 ! 9 ! 10 ! 11 ! 12 ! 13 ! 14 ! 15 ! 16 ! 17 ! 18 ! 19 ! 20 ! 21 ! 22 ! 23 ! 24 ! 25 ! 26 ! 27 ! 28 ! 29 ! 30 ! 31 ! 32 ! 33 ! 34 ! 35 ! 36 ! 37 ! 38 ! 39 ! 40 ! 41 ! 42 ! 43 ! 44 ! 45 ! 46 ! 47 ! 48 ! 49 ! 50 ! 51 ! 52 ! 53 ! 54 ! 55 ! 56 ! 57 ! 58 ! 59 ! 60 ! 61 ! 62 ! 63 ! 64 65 66 67 68 69 70 71 72 73 74 75 76 77 78 79 80 81 82 83 84 85 86 87 88 89 90 91 92 93 94 95 96 97 98 99 ! 100 101 102 103 104 105 106 107 108 109 110 111 112 113 114 115 116 117 118 119 120 121 122 123 124 125 126 127 128 129 130 131 132 133 134 135 136 137 138 139 140 141 142 143 144 145 146 147 148 149 150 151 152 153 154 155 156 157 158 159 160 161 162 163 164 165 166 167 168 169 170 171 172 173 174 175 176 177 178 179 180 181 182 183 184 185 186 187 188 189 190 191 192 193 194 195 196 197 198 199 200 201 202 203 204 205 206 207 208 209 210 211 212 213 214 215 216 217 218 219 220 221 222 223 224 225 226 227 228 229 230 231 232 233 234 235 236 237 238 239 240 241 242 243 244 245 246 247 248 249 250 251 252 253 254 255 256 257 258 259 ! 260 261 262 263 264 265 266 267 268 269 270 271 272 273 274 275 276 277 278 279 280 281 282 283 284 285 286 287 288 289 290 291 292 293 294 295 296 297 298 299 !);
+            return r.unwrap_or_else(|| "-".to_string());
+        }
+        if shape.iter().all(|k| *k == 2) {
+            let r: Option<String> = pp_doubles!(nl, v, with_const; [] (0 1) (2 3) (4 5) ! (6 7) ! (8 9) ! (10 11) ! (12 13) ! (14 15) ! (16 17) ! (18 19) ! (20 21) ! (22 23) ! (24 25) ! (26 27) ! (28 29) ! (30 31) ! (32 33) ! (34 35) ! (36 37) ! (38 39) ! (40 41) ! (42 43) ! (44 45) ! (46 47) ! (48 49) ! (50 51) ! (52 53) ! (54 55) ! (56 57) ! (58 59) ! (60 61) ! (62 63) ! (64 65) ! (66 67) ! (68 69) ! (70 71) ! (72 73) ! (74 75) ! (76 77) ! (78 79) !);
+            return r.unwrap_or_else(|| "-".to_string());
+        }
+        return "-".to_string();
+    }
     match shape.as_slice() {
         [1] => with_const!(ConstPrattParser::new_const(pratt_precedence![K::o(v[0])])),
         [1, 1] => with_const!(ConstPrattParser::new_const(pratt_precedence![K::o(v[0]), K::o(v[1])])),
@@ -162,74 +227,310 @@ fn run_const_macro(decl: &[Vec<OpD>], m: (bool, bool, bool), tokens: &str) -> St
     }
 }
 
+/// array length used for a runtime table with `n` entries (0 = not driven)
+fn padded_len(n: usize) -> usize {
+    if n <= 40 { return n; }
+    for s in [48usize, 64, 100, 130, 260, 300, 520] { if n <= s { return s; } }
+    0
+}
+
 /// ConstPrattParser::new_const on a runtime array: entries = (chain, starts a new level)
-fn run_const_array(entries: &[(Vec<OpD>, bool)], m: (bool, bool, bool), tokens: &str) -> String {
-    fn mk(entries: &[(Vec<OpD>, bool)]) -> Vec<(Op<u8>, bool)> {
-        entries.iter().map(|(ch, f)| {
+fn run_const_array(entries: &[(Vec<OpD>, bool)], m: (bool, bool, bool), tokens: &[R]) -> String {
+    fn mk(entries: &[(Vec<OpD>, bool)], len: usize) -> Vec<(Op<R>, bool)> {
+        let one = |(ch, f): &(Vec<OpD>, bool)| {
             let mut it = ch.iter();
             let mut op = K::o(*it.next().unwrap());
             for o in it { op = op | K::o(*o); }
             (op, *f)
-        }).collect()
+        };
+        let mut v: Vec<(Op<R>, bool)> = entries.iter().map(one).collect();
+        // padding: the last entry again, on the same level
+        while v.len() < len { let mut e = one(entries.last().unwrap()); e.1 = false; v.push(e); }
+        v
     }
     macro_rules! sized { ($n:literal) => {{
-        match catch(|| { let a: [(Op<u8>, bool); $n] = mk(entries).try_into().ok().unwrap(); ConstPrattParser::<u8, $n>::new_const(a) }) {
+        match catch(|| { let a: [(Op<R>, bool); $n] = mk(entries, $n).try_into().ok().unwrap(); ConstPrattParser::<R, $n>::new_const(a) }) {
             Ok(c) => run_map!(c, m, tokens),
             Err(e) => panic_kind(&e),
         }
     }}; }
-    match entries.len() {
-        1 => sized!(1), 2 => sized!(2), 3 => sized!(3), 4 => sized!(4),
-        5 => sized!(5), 6 => sized!(6), 7 => sized!(7), 8 => sized!(8),
-        _ => "-".to_string(),
-    }
+    macro_rules! sized_match { ($len:expr; $($n:literal)*) => { match $len { $( $n => sized!($n), )* _ => "-".to_string() } }; }
+    if entries.is_empty() { return "-".to_string(); }
+    sized_match!(padded_len(entries.len());
+        1 2 3 4 5 6 7 8 9 10 11 12 13 14 15 16 17 18 19 20 21 22 23 24 25 26 27 28 29 30 31 32 33 34 35 36 37 38 39 40
+        48 64 100 130 260 300 520)
 }
 
-fn run_climber(decl: &[Vec<OpD>], tokens: &str) -> String {
-    let mut ops: Vec<Operator<u8>> = Vec::new();
+/// the vector PrecClimber::new is given: infix operators only, levels without one dropped
+fn climber_levels(decl: &[Vec<OpD>]) -> Vec<Vec<(R, CAssoc)>> {
+    let mut out = Vec::new();
     for lv in decl {
-        let mut cur: Option<Operator<u8>> = None;
-        for (r, k) in lv {
-            let a = match k { 'l' => CAssoc::Left, 'r' => CAssoc::Right, _ => continue };
-            let o = Operator::new(*r, a);
-            cur = Some(match cur { None => o, Some(c) => c | o });
-        }
-        if let Some(c) = cur { ops.push(c); }
+        let l: Vec<(R, CAssoc)> = lv.iter().filter_map(|(r, k)| match k { 'l' => Some((*r, CAssoc::Left)), 'r' => Some((*r, CAssoc::Right)), _ => None }).collect();
+        if !l.is_empty() { out.push(l); }
     }
-    if ops.is_empty() { return "-".to_string(); }
-    let climber = PrecClimber::new(ops);
-    match catch(|| climber.climb(pairs_of(tokens), |p: Pair<u8>| atom(&p),
-                                 |l: String, op: Pair<u8>, r: String| format!("({} {} {})", l, atom(&op), r))) {
+    out
+}
+
+fn climb_with<T: RuleType>(climber: &PrecClimber<T>, input: &str, toks: &[T], atom: &dyn Fn(&Pair<T>) -> String) -> String {
+    match catch(|| climber.climb(pairs_of(input, toks), |p: Pair<T>| atom(&p),
+                                 |l: String, op: Pair<T>, r: String| format!("({} {} {})", l, atom(&op), r))) {
         Ok(s) => s, Err(e) => panic_kind(&e),
     }
 }
 
+/// K, S, R
+fn run_climbers(decl: &[Vec<OpD>], tokens: &[R]) -> (String, String, String) {
+    let levels = climber_levels(decl);
+    if levels.is_empty() { return ("-".to_string(), "-".to_string(), "-".to_string()); }
+    let input = input_of(tokens);
+    let mut ops: Vec<Operator<R>> = Vec::new();
+    let mut slice: Vec<(R, u32, CAssoc)> = Vec::new();
+    for (i, lv) in levels.iter().enumerate() {
+        let mut cur: Option<Operator<R>> = None;
+        for (r, a) in lv {
+            let o = Operator::new(*r, *a);
+            cur = Some(match cur { None => o, Some(c) => c | o });
+            slice.push((*r, i as u32 + 1, *a));
+        }
+        ops.push(cur.unwrap());
+    }
+    let k = climb_with(&PrecClimber::new(ops), &input, tokens, &atom);
+    let s = run_climber_slice(slice.clone(), &input, tokens);
+    slice.reverse();
+    let r = run_climber_slice(slice, &input, tokens);
+    (k, s, r)
+}
+
+/// PrecClimber::new_const wants a &'static slice: the table is leaked (a few bytes per case)
+fn run_climber_slice(slice: Vec<(R, u32, CAssoc)>, input: &str, tokens: &[R]) -> String {
+    let st: &'static [(R, u32, CAssoc)] = Box::leak(slice.into_boxed_slice());
+    let climber: PrecClimber<R> = PrecClimber::new_const(st);
+    climb_with(&climber, input, tokens, &atom)
+}
+
+// ---------------------------------------------------------------------------------------------
+// prec_climber! : the macro wants an enum called `Rule` and rule identifiers; the family of
+// invocations is fixed text (generated: see the comment in front of the list).
+// ---------------------------------------------------------------------------------------------
+macro_rules! rules_enum { ($($v:ident)*) => {
+    #[allow(non_camel_case_types)]
+    #[derive(Clone, Copy, Debug, Eq, Hash, Ord, PartialEq, PartialOrd)]
+    enum Rule { $($v),* }
+    const ALL_RULES: &[Rule] = &[$(Rule::$v),*];
+    const RULE_NAMES: &[&str] = &[$(stringify!($v)),*];
+}; }
+rules_enum!(a b c d e f g h i j k l m n o p q r s t u v w x y z A B C D E F G H I J K L M N O P Q R S T U V W X Y Z);
+fn rule_letter(rule: Rule) -> u8 { RULE_NAMES[rule as usize].as_bytes()[0] }
+fn rule_of_letter(c: R) -> Option<Rule> { ALL_RULES.iter().copied().find(|rule| rule_letter(*rule) as R == c) }
+
+/// "L a | b, R c" -> "albl,cr"
+fn canon_macro(src: &str) -> String {
+    src.split(',').filter(|l| !l.trim().is_empty()).map(|level| {
+        let mut words = level.split(|c: char| c.is_whitespace() || c == '|').filter(|w| !w.is_empty());
+        let a = if words.next() == Some("L") { 'l' } else { 'r' };
+        words.map(|w| format!("{}{}", w, a)).collect::<String>()
+    }).collect::<Vec<_>>().join(",")
+}
+macro_rules! climber_family { ($( [ $($t:tt)* ] )*) => {
+    fn macro_family_list() -> Vec<(String, PrecClimber<Rule>)> {
+        vec![ $( (canon_macro(stringify!($($t)*)), prec_climber![$($t)*]) ),* ]
+    }
+}; }
+// every table with <= 3 infix operators and one associativity per level x every assignment of the
+// letters a, b, c to its operators (= every listing order relative to the enum), then tables with 26..46 levels
+climber_family! {
+    [L a]
+    [R a]
+    [L a, L b]
+    [L b, L a]
+    [L a, R b]
+    [L b, R a]
+    [R a, L b]
+    [R b, L a]
+    [R a, R b]
+    [R b, R a]
+    [L a | b]
+    [L b | a]
+    [R a | b]
+    [R b | a]
+    [L a, L b, L c]
+    [L a, L c, L b]
+    [L b, L a, L c]
+    [L b, L c, L a]
+    [L c, L a, L b]
+    [L c, L b, L a]
+    [L a, L b, R c]
+    [L a, L c, R b]
+    [L b, L a, R c]
+    [L b, L c, R a]
+    [L c, L a, R b]
+    [L c, L b, R a]
+    [L a, R b, L c]
+    [L a, R c, L b]
+    [L b, R a, L c]
+    [L b, R c, L a]
+    [L c, R a, L b]
+    [L c, R b, L a]
+    [L a, R b, R c]
+    [L a, R c, R b]
+    [L b, R a, R c]
+    [L b, R c, R a]
+    [L c, R a, R b]
+    [L c, R b, R a]
+    [R a, L b, L c]
+    [R a, L c, L b]
+    [R b, L a, L c]
+    [R b, L c, L a]
+    [R c, L a, L b]
+    [R c, L b, L a]
+    [R a, L b, R c]
+    [R a, L c, R b]
+    [R b, L a, R c]
+    [R b, L c, R a]
+    [R c, L a, R b]
+    [R c, L b, R a]
+    [R a, R b, L c]
+    [R a, R c, L b]
+    [R b, R a, L c]
+    [R b, R c, L a]
+    [R c, R a, L b]
+    [R c, R b, L a]
+    [R a, R b, R c]
+    [R a, R c, R b]
+    [R b, R a, R c]
+    [R b, R c, R a]
+    [R c, R a, R b]
+    [R c, R b, R a]
+    [L a, L b | c]
+    [L a, L c | b]
+    [L b, L a | c]
+    [L b, L c | a]
+    [L c, L a | b]
+    [L c, L b | a]
+    [L a, R b | c]
+    [L a, R c | b]
+    [L b, R a | c]
+    [L b, R c | a]
+    [L c, R a | b]
+    [L c, R b | a]
+    [R a, L b | c]
+    [R a, L c | b]
+    [R b, L a | c]
+    [R b, L c | a]
+    [R c, L a | b]
+    [R c, L b | a]
+    [R a, R b | c]
+    [R a, R c | b]
+    [R b, R a | c]
+    [R b, R c | a]
+    [R c, R a | b]
+    [R c, R b | a]
+    [L a | b, L c]
+    [L a | c, L b]
+    [L b | a, L c]
+    [L b | c, L a]
+    [L c | a, L b]
+    [L c | b, L a]
+    [L a | b, R c]
+    [L a | c, R b]
+    [L b | a, R c]
+    [L b | c, R a]
+    [L c | a, R b]
+    [L c | b, R a]
+    [R a | b, L c]
+    [R a | c, L b]
+    [R b | a, L c]
+    [R b | c, L a]
+    [R c | a, L b]
+    [R c | b, L a]
+    [R a | b, R c]
+    [R a | c, R b]
+    [R b | a, R c]
+    [R b | c, R a]
+    [R c | a, R b]
+    [R c | b, R a]
+    [L a | b | c]
+    [L a | c | b]
+    [L b | a | c]
+    [L b | c | a]
+    [L c | a | b]
+    [L c | b | a]
+    [R a | b | c]
+    [R a | c | b]
+    [R b | a | c]
+    [R b | c | a]
+    [R c | a | b]
+    [R c | b | a]
+    [L a, L b, L c, L d, L e, L f, L g, L h, L i, L j, L k, L l, L m, L n, L o, L p, L q, L r, L s, L t, L u, L v, L w, L A, L B, L C, L D, L E, L F, L G]
+    [L G, L F, L E, L D, L C, L B, L A, L w, L v, L u, L t, L s, L r, L q, L p, L o, L n, L m, L l, L k, L j, L i, L h, L g, L f, L e, L d, L c, L b, L a]
+    [L r, R m, R o, R B, L k, R q, R n, L c, R g, R a, R p, R l, R d, L C, R b, R s, R w, L t, R e, R h, L u, R f, L A, L v, R j, R i]
+    [L g, R v, R U, L k, R w, L D, L j, L c, L V, L s, L d, R X, L F, R t, R l, L B, L f, L J, R E, L P, R W, R h, R b, L H, R K, R a, L M, L o, R Y, R u, L n, R e, R T, L Z, L m, R S, L p, R N, L I, L O, R i, R C, L r, R Q, R q, L G, R A]
+    [R l | X | h, R i, L D | A, R I, L H, L S, L T, R t | d | J, R M, L O | v, L N, R K, R V, L q, L F, R b | k, L m | r, R Z | o, R g, L j, L B, R Y, R a, L Q | e | f, L G | C, L u, R c | W, R w | U | n]
+}
+fn macro_family() -> &'static (Vec<String>, HashMap<String, PrecClimber<Rule>>) {
+    static F: OnceLock<(Vec<String>, HashMap<String, PrecClimber<Rule>>)> = OnceLock::new();
+    F.get_or_init(|| {
+        let l = macro_family_list();
+        (l.iter().map(|x| x.0.clone()).collect(), l.into_iter().collect())
+    })
+}
+fn run_climber_macro(decl: &[Vec<OpD>], tokens: &[R]) -> String {
+    if WIDE.load(Ordering::Relaxed) { return "-".to_string(); }
+    let Some(climber) = macro_family().1.get(&show_decl(decl, false)) else { return "-".to_string() };
+    let Some(toks) = tokens.iter().map(|c| rule_of_letter(*c)).collect::<Option<Vec<Rule>>>() else { return "-".to_string() };
+    let input = input_of(tokens);
+    climb_with(climber, &input, &toks, &|p: &Pair<Rule>| format!("{}{}", rule_letter(p.as_rule()) as char, p.as_span().start()))
+}
+
+// ---------------------------------------------------------------------------------------------
+// case syntax
+// ---------------------------------------------------------------------------------------------
 fn parse_ops(s: &str) -> Vec<OpD> {
     let b = s.as_bytes();
     let mut v = Vec::new();
     let mut i = 0;
-    while i + 1 < b.len() { v.push((b[i], b[i + 1] as char)); i += 2; }
+    while i + 1 < b.len() { v.push((b[i] as R, b[i + 1] as char)); i += 2; }
     v
 }
+fn parse_wide_op(s: &str) -> Option<OpD> {
+    if s.len() < 2 { return None; }
+    let (n, k) = s.split_at(s.len() - 1);
+    Some((n.parse().ok()?, k.chars().next()?))
+}
+fn parse_wide_decl(s: &str) -> Vec<Vec<OpD>> {
+    s.split(',').filter(|l| !l.is_empty()).map(|l| l.split('.').filter_map(parse_wide_op).collect::<Vec<_>>()).filter(|l: &Vec<OpD>| !l.is_empty()).collect()
+}
+fn parse_wide_tokens(s: &str) -> Vec<R> { s.split('.').filter_map(|t| t.parse().ok()).collect() }
 fn parse_maps(s: &str) -> (bool, bool, bool) {
     let b = s.as_bytes();
     (b.get(0) == Some(&b'1'), b.get(1) == Some(&b'1'), b.get(2) == Some(&b'1'))
 }
-fn show_decl(decl: &[Vec<OpD>]) -> String {
-    decl.iter().map(|l| l.iter().map(|(r, k)| format!("{}{}", *r as char, k)).collect::<String>()).collect::<Vec<_>>().join(",")
+fn show_decl(decl: &[Vec<OpD>], wide: bool) -> String {
+    if wide { decl.iter().map(|l| l.iter().map(|(r, k)| format!("{}{}", r, k)).collect::<Vec<_>>().join(".")).collect::<Vec<_>>().join(",") }
+    else { decl.iter().map(|l| l.iter().map(|(r, k)| format!("{}{}", *r as u8 as char, k)).collect::<String>()).collect::<Vec<_>>().join(",") }
 }
+fn show_tokens(toks: &[R], wide: bool) -> String {
+    if wide { toks.iter().map(|t| t.to_string()).collect::<Vec<_>>().join(".") } else { toks.iter().map(|c| *c as u8 as char).collect() }
+}
+fn is_letter(r: R) -> bool { r < 128 && (r as u8).is_ascii_alphabetic() }
 
 /// classification used only for generating well-formed sequences and counting non-trivial cases
 /// (last declaration of a rule wins, as in the code)
-fn kind_of(decl: &[Vec<OpD>], r: u8) -> Option<char> {
+fn kind_of(decl: &[Vec<OpD>], r: R) -> Option<char> {
     let mut k = None;
     for lv in decl { for (r2, k2) in lv { if *r2 == r { k = Some(*k2); } } }
     k
 }
-fn is_wf(decl: &[Vec<OpD>], tokens: &str) -> bool {
+fn kind_map(decl: &[Vec<OpD>]) -> HashMap<R, char> {
+    let mut m = HashMap::new();
+    for lv in decl { for (r, k) in lv { m.insert(*r, *k); } }
+    m
+}
+fn is_wf(decl: &[Vec<OpD>], tokens: &[R]) -> bool {
+    let km = kind_map(decl);
     let mut operand = true;
-    for c in tokens.bytes() {
-        match (operand, kind_of(decl, c)) {
+    for c in tokens {
+        match (operand, km.get(c).copied()) {
             (true, None) => operand = false,
             (true, Some('p')) => {}
             (false, Some('q')) => {}
@@ -240,54 +541,88 @@ fn is_wf(decl: &[Vec<OpD>], tokens: &str) -> bool {
     !operand
 }
 
-struct Out<'a> { w: BufWriter<io::StdoutLock<'a>>, n: u64, nontriv: u64, seen: HashSet<String>, wf: u64, panics: u64, climber_class: u64, const_macro: u64 }
+struct Out<'a> { w: BufWriter<io::StdoutLock<'a>>, n: u64, nontriv: u64, seen: HashSet<String>, wf: u64, panics: u64, climber_class: u64, const_macro: u64,
+                 many_levels: u64, climber_macro: u64, lv65: u64, lv256: u64 }
 impl<'a> Out<'a> {
-    fn table_case(&mut self, maps: &str, decl: &[Vec<OpD>], tokens: &str, dedup: bool) {
+    fn table_case(&mut self, wide: bool, maps: &str, decl: &[Vec<OpD>], tokens: &[R], dedup: bool) {
+        WIDE.store(wide, Ordering::Relaxed);
         let m = parse_maps(maps);
-        let case = format!("T;{};{};{}", maps, show_decl(decl), tokens);
-        enter_case(&case, m == (true, true, true) && is_wf(decl, tokens));
+        let case = format!("{};{};{};{}", if wide { "W" } else { "T" }, maps, show_decl(decl, wide), show_tokens(tokens, wide));
+        let wf = is_wf(decl, tokens);
+        enter_case(&case, m == (true, true, true) && wf);
         let p = run_builder(decl, m, tokens);
         let c = run_const_macro(decl, m, tokens);
-        let n = if decl.iter().map(|l| l.len()).sum::<usize>() <= 8 {
-            let entries: Vec<(Vec<OpD>, bool)> = decl.iter().flat_map(|l| l.iter().enumerate().map(|(i, o)| (vec![*o], i == 0))).collect();
-            run_const_array(&entries, m, tokens)
-        } else { "-".to_string() };
-        let k = run_climber(decl, tokens);
+        let entries: Vec<(Vec<OpD>, bool)> = decl.iter().flat_map(|l| l.iter().enumerate().map(|(i, o)| (vec![*o], i == 0))).collect();
+        let n = run_const_array(&entries, m, tokens);
+        let (k, s, r) = run_climbers(decl, tokens);
+        let mm = run_climber_macro(decl, tokens);
         leave_case();
         self.n += 1;
         // non-trivial: a well-formed sequence with at least two operators (so that grouping is decided
         // by the binding powers) that the real PrattParser turned into a tree
-        let nops = tokens.bytes().filter(|c| kind_of(decl, *c).is_some()).count();
-        let wf = is_wf(decl, tokens);
+        let km = kind_map(decl);
+        let nops = tokens.iter().filter(|c| km.contains_key(c)).count();
         if wf { self.wf += 1; }
         if p.starts_with('!') { self.panics += 1; }
         if c != "-" { self.const_macro += 1; }
+        if mm != "-" { self.climber_macro += 1; }
+        if decl.len() >= 26 && wf { self.many_levels += 1; }
+        if decl.len() >= 65 { self.lv65 += 1; }
+        if decl.len() > 256 { self.lv256 += 1; }
         if wf && k != "-" && decl.iter().flatten().all(|o| o.1 == 'l' || o.1 == 'r') { self.climber_class += 1; }
         if nops >= 2 && !p.starts_with('!') && wf && (!dedup || self.seen.insert(case.clone())) { self.nontriv += 1; }
-        writeln!(self.w, "{}\tP={};C={};N={};K={}", case, p, c, n, k).unwrap();
+        writeln!(self.w, "{}\tP={};C={};N={};K={};S={};R={};M={}", case, p, c, n, k, s, r, mm).unwrap();
     }
-    fn const_case(&mut self, maps: &str, entries: &[(Vec<OpD>, bool)], tokens: &str) {
+    /// T when every rule is an ASCII letter, W otherwise
+    fn auto_case(&mut self, maps: &str, decl: &[Vec<OpD>], tokens: &[R], dedup: bool) {
+        let wide = !(decl.iter().flatten().all(|o| is_letter(o.0)) && tokens.iter().all(|t| is_letter(*t)));
+        self.table_case(wide, maps, decl, tokens, dedup);
+    }
+    fn const_case(&mut self, maps: &str, entries: &[(Vec<OpD>, bool)], tokens: &[R]) {
+        WIDE.store(false, Ordering::Relaxed);
         let m = parse_maps(maps);
-        let e = entries.iter().map(|(ch, f)| format!("{}{}", show_decl(&[ch.clone()]), if *f { '+' } else { '-' })).collect::<Vec<_>>().join(",");
-        let case = format!("N;{};{};{}", maps, e, tokens);
+        let e = entries.iter().map(|(ch, f)| format!("{}{}", show_decl(&[ch.clone()], false), if *f { '+' } else { '-' })).collect::<Vec<_>>().join(",");
+        let case = format!("N;{};{};{}", maps, e, show_tokens(tokens, false));
         enter_case(&case, false);
-        let n = run_const_array(entries, m, tokens);
+        let n = if entries.len() <= 8 { run_const_array(entries, m, tokens) } else { "-".to_string() };
         leave_case();
         self.n += 1;
         writeln!(self.w, "{}\tN={}", case, n).unwrap();
     }
+    fn slice_case(&mut self, entries: &[(R, char, u32)], tokens: &[R]) {
+        WIDE.store(true, Ordering::Relaxed);
+        let e = entries.iter().map(|(r, a, p)| format!("{}{}{}", r, a, p)).collect::<Vec<_>>().join(",");
+        let case = format!("L;{};{}", e, show_tokens(tokens, true));
+        enter_case(&case, false);
+        let s = if entries.is_empty() { "-".to_string() } else {
+            let slice: Vec<(R, u32, CAssoc)> = entries.iter().map(|(r, a, p)| (*r, *p, if *a == 'l' { CAssoc::Left } else { CAssoc::Right })).collect();
+            run_climber_slice(slice, &input_of(tokens), tokens)
+        };
+        leave_case();
+        self.n += 1;
+        writeln!(self.w, "{}\tS={}", case, s).unwrap();
+    }
     fn one(&mut self, case: &str) {
         let f: Vec<&str> = case.split(';').collect();
-        if f.len() != 4 { writeln!(self.w, "{}\tBADCASE", case).unwrap(); return; }
-        match f[0] {
-            "T" => {
+        match (f[0], f.len()) {
+            ("T", 4) => {
                 let decl: Vec<Vec<OpD>> = f[2].split(',').filter(|s| !s.is_empty()).map(parse_ops).collect();
-                self.table_case(f[1], &decl, f[3], false);
+                let toks: Vec<R> = f[3].bytes().map(|b| b as R).collect();
+                self.table_case(false, f[1], &decl, &toks, false);
             }
-            "N" => {
+            ("W", 4) => { self.table_case(true, f[1], &parse_wide_decl(f[2]), &parse_wide_tokens(f[3]), false); }
+            ("N", 4) => {
                 let entries: Vec<(Vec<OpD>, bool)> = f[2].split(',').filter(|s| s.len() >= 3)
                     .map(|s| (parse_ops(&s[..s.len() - 1]), s.ends_with('+'))).collect();
-                self.const_case(f[1], &entries, f[3]);
+                let toks: Vec<R> = f[3].bytes().map(|b| b as R).collect();
+                self.const_case(f[1], &entries, &toks);
+            }
+            ("L", 3) => {
+                let entries: Vec<(R, char, u32)> = f[1].split(',').filter_map(|s| {
+                    let i = s.find(|c| c == 'l' || c == 'r')?;
+                    Some((s[..i].parse().ok()?, s[i..].chars().next()?, s[i + 1..].parse().ok()?))
+                }).collect();
+                self.slice_case(&entries, &parse_wide_tokens(f[2]));
             }
             _ => { writeln!(self.w, "{}\tBADCASE", case).unwrap(); }
         }
@@ -302,10 +637,10 @@ fn compositions(n: usize) -> Vec<Vec<usize>> {
 }
 
 /// all strings over `alpha` of length exactly `len`
-fn all_strings(alpha: &[u8], len: usize, f: &mut dyn FnMut(&str)) {
+fn all_strings(alpha: &[R], len: usize, f: &mut dyn FnMut(&[R])) {
     let mut idx = vec![0usize; len];
     loop {
-        let s: String = idx.iter().map(|&i| alpha[i] as char).collect();
+        let s: Vec<R> = idx.iter().map(|&i| alpha[i]).collect();
         f(&s);
         let mut k = len;
         loop {
@@ -318,14 +653,14 @@ fn all_strings(alpha: &[u8], len: usize, f: &mut dyn FnMut(&str)) {
     }
 }
 /// all well-formed strings of length exactly `len` (DFS over the two-state automaton)
-fn wf_strings(decl: &[Vec<OpD>], alpha: &[u8], len: usize, cur: &mut String, operand: bool, f: &mut dyn FnMut(&str)) {
+fn wf_strings(decl: &[Vec<OpD>], alpha: &[R], len: usize, cur: &mut Vec<R>, operand: bool, f: &mut dyn FnMut(&[R])) {
     if cur.len() == len { if !operand { f(cur); } return; }
     for &c in alpha {
         let next = match (operand, kind_of(decl, c)) {
             (true, None) => false, (true, Some('p')) => true, (false, Some('q')) => false,
             (false, Some('l')) | (false, Some('r')) => true, _ => continue,
         };
-        cur.push(c as char);
+        cur.push(c);
         wf_strings(decl, alpha, len, cur, next, f);
         cur.pop();
     }
@@ -333,25 +668,124 @@ fn wf_strings(decl: &[Vec<OpD>], alpha: &[u8], len: usize, cur: &mut String, ope
 
 const KINDS: [char; 4] = ['p', 'q', 'l', 'r'];
 
-fn random_wf(rng: &mut Rng, decl: &[Vec<OpD>], len_lo: usize, len_hi: usize) -> String {
-    let all: Vec<OpD> = decl.iter().flatten().copied().filter(|(r, k)| kind_of(decl, *r) == Some(*k)).collect();
-    let pre: Vec<u8> = all.iter().filter(|o| o.1 == 'p').map(|o| o.0).collect();
-    let post: Vec<u8> = all.iter().filter(|o| o.1 == 'q').map(|o| o.0).collect();
-    let inf: Vec<u8> = all.iter().filter(|o| o.1 == 'l' || o.1 == 'r').map(|o| o.0).collect();
+/// a random well-formed sequence; `focus` (if any) = the operators to prefer (3 times out of 4)
+fn random_wf(rng: &mut Rng, decl: &[Vec<OpD>], prims: &[R], len_lo: usize, len_hi: usize, focus: &[R]) -> Vec<R> {
+    let km = kind_map(decl);
+    let all: Vec<OpD> = decl.iter().flatten().copied().filter(|(r, k)| km.get(r) == Some(k)).collect();
+    let of = |kinds: &[char], only: &[R]| -> Vec<R> { all.iter().filter(|o| kinds.contains(&o.1) && (only.is_empty() || only.contains(&o.0))).map(|o| o.0).collect() };
+    let (pre, post, inf) = (of(&['p'], &[]), of(&['q'], &[]), of(&['l', 'r'], &[]));
+    let (fpre, fpost, finf) = if focus.is_empty() { (vec![], vec![], vec![]) } else { (of(&['p'], focus), of(&['q'], focus), of(&['l', 'r'], focus)) };
     let target = rng.range(len_lo as u64, len_hi as u64) as usize;
-    let mut s = String::new();
+    let mut s: Vec<R> = Vec::new();
     let mut operand = true;
     // per-sequence bias so that long runs of prefixes / postfixes / infix chains all occur
     let bias_pre = rng.range(1, 4); let bias_post = rng.range(1, 4);
+    fn choose<'a>(rng: &mut Rng, all: &'a [R], foc: &'a [R]) -> R { if !foc.is_empty() && rng.chance(3, 4) { *rng.pick(foc) } else { *rng.pick(all) } }
     while s.len() < target || operand {
         if operand {
-            if !pre.is_empty() && s.len() + 1 < target && rng.chance(bias_pre, 6) { s.push(*rng.pick(&pre) as char); }
-            else { s.push(*rng.pick(&[b'x', b'y', b'z']) as char); operand = false; }
-        } else if !post.is_empty() && (inf.is_empty() || rng.chance(bias_post, 6)) { s.push(*rng.pick(&post) as char); }
-        else if !inf.is_empty() { s.push(*rng.pick(&inf) as char); operand = true; }
+            if !pre.is_empty() && s.len() + 1 < target && rng.chance(bias_pre, 6) { s.push(choose(rng, &pre, &fpre)); }
+            else { s.push(*rng.pick(prims)); operand = false; }
+        } else if !post.is_empty() && (inf.is_empty() || rng.chance(bias_post, 6)) { s.push(choose(rng, &post, &fpost)); }
+        else if !inf.is_empty() { s.push(choose(rng, &inf, &finf)); operand = true; }
         else { break; }
     }
     s
+}
+
+/// a handful of operators to concentrate a sequence on: the loosest and the tightest levels, and random ones in between,
+/// so that the highest levels stand next to the lowest
+fn focus_set(rng: &mut Rng, decl: &[Vec<OpD>]) -> Vec<R> {
+    if decl.len() < 4 || rng.chance(1, 4) { return vec![]; }
+    let mut f: Vec<R> = Vec::new();
+    let n = decl.len();
+    let mut lv: Vec<usize> = Vec::new();
+    if rng.chance(2, 3) { lv.push(rng.below(3.min(n as u64)) as usize); }
+    if rng.chance(2, 3) { lv.push(n - 1 - rng.below(3.min(n as u64)) as usize); }
+    for _ in 0..rng.range(1, 3) { lv.push(rng.below(n as u64) as usize); }
+    for l in lv { for o in &decl[l] { f.push(o.0); } }
+    f
+}
+
+const LETTER_PRIMS: [R; 3] = [b'x' as R, b'y' as R, b'z' as R];
+
+/// a table with many levels and arbitrary rule numbers
+fn random_wide_table(rng: &mut Rng) -> (Vec<Vec<OpD>>, Vec<R>) {
+    let nlev = match rng.weighted(&[30, 15, 30, 14, 11]) {
+        0 => rng.range(1, 12), 1 => rng.range(13, 25), 2 => rng.range(26, 40), 3 => rng.range(41, 64),
+        _ => *rng.pick(&[65u64, 100, 129, 130, 255, 256, 257, 260, 300]),
+    } as usize;
+    let profile = rng.below(10);   // 0,1: infix-only uniform; 2: infix-only mixed; else anything
+    let multi = rng.chance(1, 4);
+    let mut shape: Vec<usize> = (0..nlev).map(|_| if multi && nlev <= 130 && rng.chance(1, 3) { rng.range(2, 3) as usize } else { 1 }).collect();
+    if rng.chance(1, 10) && nlev <= 40 { for s in shape.iter_mut() { *s = 2; } }
+    let total: usize = shape.iter().sum();
+    // rule numbers: distinct values from the whole u8 range when they fit, else from 0..1024; sometimes a few far-away u16 values
+    let space: u64 = if total + 3 <= 200 { 256 } else { 1024 };
+    let mut used: HashSet<R> = HashSet::new();
+    let mut ids: Vec<R> = Vec::new();
+    while ids.len() < total + 3 {
+        let r = if rng.chance(1, 60) { *rng.pick(&[0u16, 255, 256, 65535, 32768, 1000]) } else { rng.below(space) as R };
+        if used.insert(r) { ids.push(r); }
+    }
+    let prims: Vec<R> = ids.split_off(total);
+    match rng.below(5) { 0 => ids.sort(), 1 => { ids.sort(); ids.reverse(); } _ => {} }   // listing order relative to Ord: ascending, descending, arbitrary
+    let mut decl: Vec<Vec<OpD>> = Vec::new();
+    let mut it = ids.into_iter();
+    for k in shape {
+        let lev_assoc = if rng.chance(1, 2) { 'l' } else { 'r' };
+        let mut lv = Vec::new();
+        for _ in 0..k {
+            let kind = match profile { 0 | 1 => lev_assoc, 2 => *rng.pick(&['l', 'r']), _ => KINDS[rng.weighted(&[3, 3, 4, 4])] };
+            lv.push((it.next().unwrap(), kind));
+        }
+        decl.push(lv);
+    }
+    if rng.chance(1, 25) && total >= 2 {
+        // a rule declared twice
+        let flat: Vec<OpD> = decl.iter().flatten().copied().collect();
+        let src = *rng.pick(&flat);
+        let l = rng.below(decl.len() as u64) as usize;
+        let j = rng.below(decl[l].len() as u64) as usize;
+        decl[l][j].0 = src.0;
+    }
+    (decl, prims)
+}
+
+/// variants of a table on which an escalated search looks for a failing input
+fn table_variants(rng: &mut Rng, decl: &[Vec<OpD>]) -> Vec<Vec<Vec<OpD>>> {
+    let mut out: Vec<Vec<Vec<OpD>>> = vec![decl.to_vec()];
+    // the rule numbers mirrored (i-th smallest <-> i-th largest): the listing order relative to Ord is reversed
+    let mut sorted: Vec<R> = decl.iter().flatten().map(|o| o.0).collect::<HashSet<_>>().into_iter().collect();
+    sorted.sort();
+    let mirror: HashMap<R, R> = sorted.iter().copied().zip(sorted.iter().rev().copied()).collect();
+    out.push(decl.iter().map(|l| l.iter().map(|(r, k)| (mirror[r], *k)).collect()).collect());
+    // levels in the opposite order
+    out.push(decl.iter().rev().cloned().collect());
+    // every pair of operators alone (small tables give small failing inputs)
+    let flat: Vec<(usize, OpD)> = decl.iter().enumerate().flat_map(|(i, l)| l.iter().map(move |o| (i, *o))).collect();
+    let mut pairs: Vec<(usize, usize)> = Vec::new();
+    for i in 0..flat.len() { for j in i + 1..flat.len() { pairs.push((i, j)); } }
+    while pairs.len() > 60 { let k = rng.below(pairs.len() as u64) as usize; pairs.swap_remove(k); }
+    for (i, j) in pairs {
+        let (a, b) = (flat[i], flat[j]);
+        if a.0 == b.0 { out.push(vec![vec![a.1, b.1]]); } else { out.push(vec![vec![a.1], vec![b.1]]); }
+        if a.0 != b.0 { out.push(vec![vec![b.1], vec![a.1]]); }
+    }
+    // the table extended by fresh one-operator levels below and above it to 30, 64, 130, 260 and 300 levels
+    let kinds: Vec<char> = decl.iter().flatten().map(|o| o.1).collect();
+    let used: HashSet<R> = decl.iter().flatten().map(|o| o.0).collect();
+    for target in [30usize, 64, 130, 260, 300] {
+        if decl.len() >= target { continue; }
+        let mut fresh = (300u16..).filter(|r| !used.contains(r));
+        let extra = target - decl.len();
+        let below = match rng.below(3) { 0 => 0, 1 => extra, _ => extra / 2 };
+        let mut d: Vec<Vec<OpD>> = Vec::new();
+        for _ in 0..below { d.push(vec![(fresh.next().unwrap(), *rng.pick(&kinds))]); }
+        d.extend(decl.iter().cloned());
+        for _ in below..extra { d.push(vec![(fresh.next().unwrap(), *rng.pick(&kinds))]); }
+        out.push(d);
+    }
+    out
 }
 
 fn main() {
@@ -359,7 +793,8 @@ fn main() {
     start_watchdog();
     let mode = arg(1);
     let stdout = io::stdout();
-    let mut out = Out { w: BufWriter::with_capacity(1 << 20, stdout.lock()), n: 0, nontriv: 0, seen: HashSet::new(), wf: 0, panics: 0, climber_class: 0, const_macro: 0 };
+    let mut out = Out { w: BufWriter::with_capacity(1 << 20, stdout.lock()), n: 0, nontriv: 0, seen: HashSet::new(), wf: 0, panics: 0, climber_class: 0, const_macro: 0,
+                        many_levels: 0, climber_macro: 0, lv65: 0, lv256: 0 };
     match mode.as_str() {
         // exh NOPS LEN_ALL LEN_WF SHARD NSHARDS [MINOPS] : every table with MINOPS..NOPS operators (all splits into levels, all
         // affix/assoc choices) x every string of length <= LEN_ALL over its operators + one primary, and every
@@ -376,14 +811,14 @@ fn main() {
                         if tix % nshards == shard {
                             let mut decl: Vec<Vec<OpD>> = Vec::new();
                             let mut i = 0;
-                            for &k in &comp { decl.push((0..k).map(|j| (b'a' + (i + j) as u8, KINDS[kidx[i + j]])).collect()); i += k; }
-                            let mut alpha: Vec<u8> = (0..n).map(|i| b'a' + i as u8).collect();
-                            alpha.push(b'x');
-                            for len in 0..=len_all { all_strings(&alpha, len, &mut |s| out.table_case("111", &decl, s, false)); }
-                            for len in len_all + 1..=len_wf { let mut cur = String::new(); wf_strings(&decl, &alpha, len, &mut cur, true, &mut |s| out.table_case("111", &decl, s, false)); }
+                            for &k in &comp { decl.push((0..k).map(|j| ((b'a' + (i + j) as u8) as R, KINDS[kidx[i + j]])).collect()); i += k; }
+                            let mut alpha: Vec<R> = (0..n).map(|i| (b'a' + i as u8) as R).collect();
+                            alpha.push(b'x' as R);
+                            for len in 0..=len_all { all_strings(&alpha, len, &mut |s| out.table_case(false, "111", &decl, s, false)); }
+                            for len in len_all + 1..=len_wf { let mut cur = Vec::new(); wf_strings(&decl, &alpha, len, &mut cur, true, &mut |s| out.table_case(false, "111", &decl, s, false)); }
                             if n <= 2 {
                                 for maps in ["000", "001", "010", "011", "100", "101", "110"] {
-                                    for len in 1..=len_all.min(4) { all_strings(&alpha, len, &mut |s| out.table_case(maps, &decl, s, false)); }
+                                    for len in 1..=len_all.min(4) { all_strings(&alpha, len, &mut |s| out.table_case(false, maps, &decl, s, false)); }
                                 }
                             }
                         }
@@ -397,6 +832,30 @@ fn main() {
                             kidx[k] = 0;
                         }
                         if done { break; }
+                    }
+                }
+            }
+        }
+        // macrofam LEN_ALL LEN_WF COUNT SEED : every table of the prec_climber! family (operators listed in every order relative
+        // to the enum) x every string of length <= LEN_ALL and every well-formed one up to LEN_WF for the tables with <= 3 operators,
+        // COUNT random well-formed sequences for the tables with many levels
+        "macrofam" => {
+            let len_all = arg_u64(2, 4) as usize; let len_wf = arg_u64(3, 6) as usize; let count = arg_u64(4, 200);
+            let mut rng = Rng::new(arg_u64(5, 0));
+            for d in macro_family().0.clone() {
+                let decl: Vec<Vec<OpD>> = d.split(',').map(parse_ops).collect();
+                let nops: usize = decl.iter().map(|l| l.len()).sum();
+                if nops <= 3 {
+                    let mut alpha: Vec<R> = decl.iter().flatten().map(|o| o.0).collect();
+                    alpha.sort();
+                    alpha.push(b'x' as R);
+                    for len in 0..=len_all { all_strings(&alpha, len, &mut |s| out.table_case(false, "111", &decl, s, false)); }
+                    for len in len_all + 1..=len_wf { let mut cur = Vec::new(); wf_strings(&decl, &alpha, len, &mut cur, true, &mut |s| out.table_case(false, "111", &decl, s, false)); }
+                } else {
+                    for _ in 0..count {
+                        let f = focus_set(&mut rng, &decl);
+                        let toks = random_wf(&mut rng, &decl, &LETTER_PRIMS, 3, 24, &f);
+                        out.table_case(false, "111", &decl, &toks, true);
                     }
                 }
             }
@@ -419,9 +878,16 @@ fn main() {
                     for _ in 0..k {
                         let kind = match profile { 0 | 1 => lev_assoc, 2 => *rng.pick(&['l', 'r']), _ => KINDS[rng.weighted(&[3, 3, 4, 4])] };
                         let r = if next > b'a' && rng.chance(1, 25) { b'a' + rng.below((next - b'a') as u64) as u8 } else { let r = next; next += 1; r };
-                        lv.push((r, kind));
+                        lv.push((r as R, kind));
                     }
                     decl.push(lv);
+                }
+                if rng.chance(1, 3) {
+                    // the same table with its letters assigned in another order (the listing order relative to Ord varies)
+                    let n = (next - b'a') as usize;
+                    let mut perm: Vec<u8> = (0..n as u8).collect();
+                    if rng.chance(1, 2) { perm.reverse(); } else { for i in (1..n).rev() { let j = rng.below(i as u64 + 1) as usize; perm.swap(i, j); } }
+                    for lv in decl.iter_mut() { for o in lv.iter_mut() { o.0 = (b'a' + perm[(o.0 as u8 - b'a') as usize]) as R; } }
                 }
                 if rng.chance(1, 20) {
                     // direct new_const with arbitrary flags and the occasional chain
@@ -429,30 +895,112 @@ fn main() {
                     let mut entries: Vec<(Vec<OpD>, bool)> = Vec::new();
                     for (i, o) in flat.iter().enumerate() {
                         let flag = if i == 0 { !rng.chance(1, 6) } else { rng.chance(1, 2) };
-                        let ch = if rng.chance(1, 12) { vec![*o, (b'w', 'l')] } else { vec![*o] };
+                        let ch = if rng.chance(1, 12) { vec![*o, (b'w' as R, 'l')] } else { vec![*o] };
                         entries.push((ch, flag));
                     }
                     let d2: Vec<Vec<OpD>> = vec![flat.clone()];
-                    let toks = random_wf(&mut rng, &d2, 1, 12);
+                    let toks = random_wf(&mut rng, &d2, &LETTER_PRIMS, 1, 12, &[]);
                     out.const_case("111", &entries, &toks);
                     continue;
                 }
-                let mut toks = random_wf(&mut rng, &decl, minlen, 40);
+                let mut toks = random_wf(&mut rng, &decl, &LETTER_PRIMS, minlen, 40, &[]);
                 if rng.chance(3, 20) {
                     // ill-formed neighbour: replace / delete / insert one token
-                    let mut b: Vec<u8> = toks.bytes().collect();
-                    let pos = rng.below(b.len() as u64) as usize;
-                    let c = if rng.chance(1, 2) { b'x' } else { b'a' + rng.below((next - b'a').max(1) as u64) as u8 };
-                    match rng.below(3) { 0 => b[pos] = c, 1 => { b.remove(pos); } _ => b.insert(pos, c) }
-                    toks = String::from_utf8(b).unwrap();
+                    let pos = rng.below(toks.len() as u64) as usize;
+                    let c = if rng.chance(1, 2) { b'x' } else { b'a' + rng.below((next - b'a').max(1) as u64) as u8 } as R;
+                    match rng.below(3) { 0 => toks[pos] = c, 1 => { toks.remove(pos); } _ => toks.insert(pos, c) }
                 }
                 let maps = if rng.chance(1, 12) { *rng.pick(&["011", "101", "110", "000"]) } else { "111" };
-                out.table_case(maps, &decl, &toks, true);
+                out.table_case(false, maps, &decl, &toks, true);
+            }
+        }
+        // wide TABLES SEED PER_TABLE : tables with 1..300 levels (most between 1 and 64), rule numbers spread over the u8 range
+        // (a few beyond) and listed in ascending / descending / arbitrary order, x PER_TABLE sequences each, most of them
+        // concentrated on a few operators that include the loosest and the tightest levels; one table in 8 is instead a
+        // direct PrecClimber::new_const slice with arbitrary u32 precedences in arbitrary order (L case)
+        "wide" => {
+            let tables = arg_u64(2, 100);
+            let mut rng = Rng::new(arg_u64(3, 0));
+            let per = arg_u64(4, 6);
+            for _ in 0..tables {
+                let (decl, prims) = random_wide_table(&mut rng);
+                if rng.chance(1, 8) {
+                    let lv = climber_levels(&decl);
+                    if !lv.is_empty() && lv.len() <= 64 {
+                        // precedences: any strictly increasing u32 values (sometimes starting at 0, sometimes ending at u32::MAX)
+                        let mut precs: Vec<u32> = Vec::new();
+                        let mut p: u64 = if rng.chance(1, 8) { 0 } else { rng.range(1, 3) };
+                        let step_hi = *rng.pick(&[1u64, 1, 10, 1000, 60_000_000]);
+                        for _ in 0..lv.len() { precs.push(p as u32); p += rng.range(1, step_hi); }
+                        if rng.chance(1, 6) { *precs.last_mut().unwrap() = u32::MAX; }
+                        let mut entries: Vec<(R, char, u32)> = Vec::new();
+                        for (i, l) in lv.iter().enumerate() { for (r, a) in l { entries.push((*r, if *a == CAssoc::Left { 'l' } else { 'r' }, precs[i])); } }
+                        match rng.below(4) { 0 => {} 1 => entries.reverse(), 2 => entries.sort(),
+                            _ => { for i in (1..entries.len()).rev() { let j = rng.below(i as u64 + 1) as usize; entries.swap(i, j); } } }
+                        let d2: Vec<Vec<OpD>> = lv.iter().map(|l| l.iter().map(|(r, a)| (*r, if *a == CAssoc::Left { 'l' } else { 'r' })).collect()).collect();
+                        for _ in 0..per {
+                            let f = focus_set(&mut rng, &d2);
+                            let mut toks = random_wf(&mut rng, &d2, &prims, 3, 30, &f);
+                            if rng.chance(1, 10) { let pos = rng.below(toks.len() as u64) as usize; toks.remove(pos); }
+                            out.slice_case(&entries, &toks);
+                        }
+                        continue;
+                    }
+                }
+                for _ in 0..per {
+                    let f = focus_set(&mut rng, &decl);
+                    let mut toks = random_wf(&mut rng, &decl, &prims, 3, 40, &f);
+                    if rng.chance(1, 12) {
+                        let pos = rng.below(toks.len() as u64) as usize;
+                        let li = rng.below(decl.len() as u64) as usize;
+                        let c = if rng.chance(1, 2) { prims[0] } else { rng.pick(&decl[li]).0 };
+                        match rng.below(3) { 0 => toks[pos] = c, 1 => { toks.remove(pos); } _ => toks.insert(pos, c) }
+                    }
+                    out.table_case(true, "111", &decl, &toks, true);
+                }
+            }
+        }
+        // around CASE COUNT SEED : escalated search that starts from a T/W case on which the real parsers and the model differ:
+        // its table, the table with mirrored rule numbers, with reversed levels, every pair of its operators alone, and the table
+        // extended to 30..300 levels, each x all short well-formed sequences (small tables) and COUNT random well-formed ones
+        "around" => {
+            let case = arg(2);
+            let count = arg_u64(3, 300);
+            let mut rng = Rng::new(arg_u64(4, 0));
+            let f: Vec<&str> = case.split(';').collect();
+            let (decl, toks0): (Vec<Vec<OpD>>, Vec<R>) = match (f[0], f.len()) {
+                ("T", 4) => (f[2].split(',').filter(|s| !s.is_empty()).map(parse_ops).collect(), f[3].bytes().map(|b| b as R).collect()),
+                ("W", 4) => (parse_wide_decl(f[2]), parse_wide_tokens(f[3])),
+                _ => (vec![], vec![]),
+            };
+            if !decl.is_empty() {
+                let used: HashSet<R> = decl.iter().flatten().map(|o| o.0).collect();
+                let letters = used.iter().all(|r| is_letter(*r));
+                for d in table_variants(&mut rng, &decl) {
+                    let all_used: HashSet<R> = d.iter().flatten().map(|o| o.0).collect();
+                    let prims: Vec<R> = if letters && all_used.iter().all(|r| is_letter(*r)) { LETTER_PRIMS.iter().copied().filter(|r| !all_used.contains(r)).collect() }
+                                        else { (1000u16..).filter(|r| !all_used.contains(r)).take(3).collect() };
+                    if prims.is_empty() { continue; }
+                    let nops: usize = d.iter().map(|l| l.len()).sum();
+                    if nops <= 4 {
+                        let mut alpha: Vec<R> = all_used.iter().copied().collect();
+                        alpha.sort();
+                        alpha.push(prims[0]);
+                        for len in 1..=7 { let mut cur = Vec::new(); wf_strings(&d, &alpha, len, &mut cur, true, &mut |s| out.auto_case("111", &d, s, true)); }
+                    }
+                    if is_wf(&d, &toks0) { out.auto_case("111", &d, &toks0, true); }
+                    let n = if nops <= 4 { count / 4 } else { count };
+                    for _ in 0..n {
+                        let fs = focus_set(&mut rng, &d);
+                        let toks = random_wf(&mut rng, &d, &prims, 2, 30, &fs);
+                        out.auto_case("111", &d, &toks, true);
+                    }
+                }
             }
         }
         "one" => { let c = arg(2); out.one(&c); }
-        _ => { eprintln!("usage: c13 exh NOPS LEN_ALL LEN_WF SHARD NSHARDS [MINOPS] | random COUNT SEED MINLEN | one CASE"); std::process::exit(2); }
+        _ => { eprintln!("usage: c13 exh NOPS LEN_ALL LEN_WF SHARD NSHARDS [MINOPS] | macrofam LEN_ALL LEN_WF COUNT SEED | random COUNT SEED MINLEN | wide TABLES SEED PER_TABLE | around CASE COUNT SEED | one CASE"); std::process::exit(2); }
     }
-    writeln!(out.w, "#SUMMARY\tevaluations={}\tdistinct_nontrivial={}\twell_formed={}\tpratt_panics={}\tinfix_only_well_formed={}\tconst_via_macro={}",
-             out.n, out.nontriv, out.wf, out.panics, out.climber_class, out.const_macro).unwrap();
+    writeln!(out.w, "#SUMMARY\tevaluations={}\tdistinct_nontrivial={}\twell_formed={}\tpratt_panics={}\tinfix_only_well_formed={}\tconst_via_macro={}\tclimber_via_macro={}\twell_formed_on_26plus_levels={}\tcases_65plus_levels={}\tcases_257plus_levels={}",
+             out.n, out.nontriv, out.wf, out.panics, out.climber_class, out.const_macro, out.climber_macro, out.many_levels, out.lv65, out.lv256).unwrap();
 }
